@@ -129,6 +129,58 @@ class FnView(object):
         return False
     return True
 
+  def node_holding(self, expr):
+    """cfg node whose own expressions contain `expr` (None if not found)."""
+    for n in self.cfg.stmt_nodes():
+      for x in self.cfg.sub_nodes(n, into_lambda=True):
+        if x is expr:
+          return n
+    return None
+
+  def reaching_value(self, name_node):
+    """The value of the one plain assignment `<name> = value` that reaches this
+    use on every path: it dominates the use and no other assignment to the
+    name lies between (flow-sensitive; None when there is no such one)."""
+    use = self.node_holding(name_node)
+    if use is None:
+      return None
+    defs = []
+    for n in self.cfg.stmt_nodes():
+      st = self.cfg.stmt[n]
+      tgts = []
+      if isinstance(st, ast.Assign):
+        tgts = st.targets
+      elif isinstance(st, (ast.AugAssign, ast.AnnAssign)):
+        tgts = [st.target]
+      elif isinstance(st, (ast.For, ast.With)):
+        tgts = [x for x in ast.walk(st.target)] if isinstance(st, ast.For) else []
+      for t in tgts:
+        for y in ast.walk(t):
+          if isinstance(y, ast.Name) and y.id == name_node.id:
+            defs.append((n, st))
+    doms = [(n, st) for n, st in defs if n != use and self.cfg.dominates(n, use)]
+    if not doms:
+      return None
+    # the latest dominating definition
+    best = doms[0]
+    for d in doms[1:]:
+      if self.cfg.dominates(best[0], d[0]):
+        best = d
+    n, st = best
+    if not (isinstance(st, ast.Assign) and len(st.targets) == 1 and
+            isinstance(st.targets[0], ast.Name)):
+      return None
+    # no other definition can intervene between best and the use
+    after = self.cfg.reachable(n)
+    for o, ost in defs:
+      if o == n:
+        continue
+      if o in after and use in self.cfg.reachable(o) and not self.cfg.dominates(use, o):
+        # o lies on some path best -> o -> use
+        if o != use:
+          return None
+    return st.value
+
   def assigned_from(self, name):
     """Value expressions assigned to local `name` (flow-insensitive)."""
     out = []
@@ -163,6 +215,14 @@ class FnView(object):
             if isinstance(t, ast.Name):
               count[t.id] = count.get(t.id, 0) + 1
               val[t.id] = x.value
+            elif isinstance(t, (ast.Tuple, ast.List)) and isinstance(x.value, (ast.Tuple, ast.List)) \
+                and len(t.elts) == len(x.value.elts) and all(isinstance(e, ast.Name) for e in t.elts) \
+                and not ({e.id for e in t.elts} & {y.id for y in ast.walk(x.value)
+                                                   if isinstance(y, ast.Name)}):
+              # first, last = s[0], s[-1]: two plain assignments written as one
+              for e, v_ in zip(t.elts, x.value.elts):
+                count[e.id] = count.get(e.id, 0) + 1
+                val[e.id] = v_
             elif isinstance(t, (ast.Tuple, ast.List, ast.Starred)):
               for e in ast.walk(t):
                 if isinstance(e, ast.Name) and isinstance(e.ctx, ast.Store):
